@@ -358,56 +358,14 @@ def check_output(ver, req_tokens, d):
     return None
 
 
-def table_entries(tokens):
-    """(key units, next token) for every table entry of the request"""
-    return [(unhexs(t[2:]) or [], tokens[i + 1]) for i, t in enumerate(tokens[:-1]) if t.startswith("K:")]
-
-
 def known_class(ver, req_tokens, d):
-    """classes of the open findings (known_findings.d/C02.json, C13.json)"""
-    if d is None or d.get("b") != 0:
+    """class of the open finding (known_findings.d/C02.json, C13.json): an unquoted string whose single line exceeds the
+    line limit comes back quoted.  (The classes of the five writer defects repaired by 0543b02, 634c0d5, 098a48f, bf64cbf,
+    40af3df are gone: a recurrence is a violation.)"""
+    if d is None or d.get("b") != 0 or d.get("rc") != 0:
         return None
-    rc = d.get("rc")
-    ents = table_entries(req_tokens)
-    if ver != 1 and rc == CODES["CIF_OVERLENGTH_LINE"]:
-        # a NUMBER as a table value is written without wrapping (write_numb: wrap = separate_values = 0): when it does not
-        # fit behind its key cif_write gives up.  No other path of the writer returns this code.
-        if any(nxt.startswith("M0:") for _, nxt in ents):
-            return "number-table-value-overlength"
+    if check_output(ver, req_tokens, d) is None:
         return None
-    if ver != 1 and rc == CIF_ERROR:
-        # the quoted / triple-quoted key fills the line, the ':' behind it is refused
-        def fills(k):
-            both = 39 in k and 34 in k
-            return 10 not in k and len(k) == (LINE - 6 if both else LINE - 2)
-        if any(fills(k) for k, _ in ents):
-            return "table-key-fills-line-colon-CIF_ERROR"
-        # a nested table's '{' is written without wrapping
-        if any(nxt == "{" for _, nxt in ents):
-            return "nested-table-value-nowrap-CIF_ERROR"
-        return None
-    if rc != 0:
-        return None
-    why = check_output(ver, req_tokens, d)
-    if why is None:
-        return None
-    if ver != 1 and (why.startswith("re-parsed CIF is not equivalent") or why.startswith("re-parse reported error")):
-        # write_uliteral(name, -1, …) counts code points and prints that many UNITS: a scalar data name holding a
-        # supplementary character loses its last unit(s) — the item comes back under another name (possibly one that
-        # collides with another item: CIF_DUP_ITEMNAME on re-parse)
-        toks = req_tokens
-        for i, t in enumerate(toks):
-            if t.startswith("L:-:"):
-                n = int(t.rpartition(":")[2])
-                if any(0xD800 <= u < 0xDC00 for x in toks[i + 1:i + 1 + n] for u in (unhexs(x) or [])):
-                    return "scalar-name-supplementary-character-truncated"
-    if why == "output has a line of %d characters" % (LINE + 1):
-        # a looped item whose name has LINE characters is written behind one blank in the loop header
-        names = request_strings(req_tokens)[0]
-        data = out_bytes(d.get("out"))
-        if any(len(norm_name(n)) == LINE for n in names) and all(
-                len(l) <= LINE or (len(l) == LINE + 1 and l.startswith(" _")) for l in data.decode("utf-8", "replace").split("\n")):
-            return "loop-header-name-fills-line"
     if d.get("prc") == 0 and d.get("errs") == "-" and equivalent(d.get("orig", ["-"]), d.get("back", ["-"]), tolerate=True) is None:
         # everything else of the oracle holds?
         d2 = dict(d)
